@@ -32,6 +32,11 @@ try:
     for fn in os.listdir(src):          # helper modules the demo imports (harness.py ...)
         if fn.endswith(".py") and fn != "demo.py":
             open(os.path.join(sd, fn), "w").write(re.sub(r"/tmp/wt2?/C\d+", wt, open(os.path.join(src, fn)).read()))
+    # helpers kept one level up by the author (harness.py, base.py ...)
+    par = os.path.dirname(src.rstrip("/"))
+    for fn in os.listdir(par):
+        if fn.endswith(".py") and os.path.isfile(os.path.join(par, fn)):
+            open(os.path.join(wt, "_out", fn), "w").write(re.sub(r"/tmp/wt2?/C\d+", wt, open(os.path.join(par, fn)).read()))
     demo = os.path.join(sd, "demo.py")
     open(demo, "w").write(demo_src)
     env = dict(os.environ, PYTHONPATH=os.path.join(wt, "src"))
@@ -78,6 +83,10 @@ try:
     for fn in os.listdir(src):
         if fn.endswith(".py"):
             open(os.path.join(dst, fn), "w").write(open(os.path.join(src, fn)).read())
+    for fn in os.listdir(par):
+        if fn.endswith(".py") and os.path.isfile(os.path.join(par, fn)):
+            os.makedirs(os.path.join(dst, "parent_helpers"), exist_ok=True)
+            open(os.path.join(dst, "parent_helpers", fn), "w").write(open(os.path.join(par, fn)).read())
     notes = open(os.path.join(src, "notes.md")).read() if os.path.exists(os.path.join(src, "notes.md")) else ""
     open(os.path.join(dst, "notes.md"), "w").write(notes)
     meta = {"id": sid, "breaks_property": prop, "confirmed_at_repo_head": head,
